@@ -53,6 +53,8 @@ func vfChainSource(n, width int, x int64) (string, int64) {
 //	"flatten"  a,b    (and (and ×a) (and ×b)): a+b operands after ReduceNesting
 //	"nodes"    n      a program with exactly n nodes
 //	"stack"    d      right-nested arithmetic of depth d (operand stack d+1)
+//	"marker"   d,name the same with a variable spelled like an internal marker word (fi, end, ...)
+//	"marker-str" d,name  the same with such a string literal as an operator's first operand
 //
 // Either Compile rejects the expression with an error, or the program evaluates
 // to the reference result with every narrowing conversion value-preserving, no
@@ -63,6 +65,7 @@ func VerifC09(args []string) {
 	tickVal := vfInt64("tick")
 	var src string
 	var want Value
+	markerName := ""
 	mustReject, mustAccept := false, false
 	switch kind {
 	case "operands":
@@ -115,6 +118,28 @@ func VerifC09(args []string) {
 		}
 		want = acc
 		mustAccept = true
+	case "marker", "marker-str":
+		// right-nested arithmetic whose leaves are spelled like the words the compiler uses internally
+		// for its synthetic nodes (a variable named fi / end / if..., or such a string literal)
+		dn := vfSplit(param, ',')
+		d, _ := strconv.Atoi(dn[0])
+		markerName = dn[1]
+		if kind == "marker" {
+			src = strings.Repeat("(+ "+markerName+" ", d) + markerName + strings.Repeat(")", d)
+			acc := x
+			for j := 0; j < d; j++ {
+				acc = x + acc
+			}
+			want = acc
+		} else {
+			src = strings.Repeat("(+ (tick \""+markerName+"\" i0) ", d) + "i0" + strings.Repeat(")", d)
+			acc := x
+			for j := 0; j < d; j++ {
+				acc = tickVal + acc
+			}
+			want = acc
+		}
+		mustAccept = true
 	case "stack":
 		d, _ := strconv.Atoi(param)
 		src = strings.Repeat("(+ i0 ", d) + "i0" + strings.Repeat(")", d)
@@ -127,6 +152,9 @@ func VerifC09(args []string) {
 	}
 	conf := NewConfig()
 	conf.VariableKeyMap["i0"] = 1
+	if kind == "marker" {
+		conf.VariableKeyMap[markerName] = 2
+	}
 	conf.OperatorMap["tick"] = func(_ *Ctx, ps []Value) (Value, error) { return tickVal, nil }
 	for i, o := range optimizations {
 		conf.CompileOptions[o] = opts[i] == '1'
@@ -135,6 +163,9 @@ func VerifC09(args []string) {
 	case "event":
 		conf.CompileOptions[ReportEvent] = true
 	case "debug":
+		conf.CompileOptions[Debug] = true
+	case "both":
+		conf.CompileOptions[ReportEvent] = true
 		conf.CompileOptions[Debug] = true
 	}
 	vfNarrow(true)
@@ -156,6 +187,9 @@ func VerifC09(args []string) {
 		e.EventChan = make(chan Event, 1<<17)
 	}
 	vals := map[string]Value{"i0": x}
+	if kind == "marker" {
+		vals[markerName] = x
+	}
 	got, gerr := e.Eval(&Ctx{VariableFetcher: MapVarFetcher(vals)})
 	vfAssert(gerr == nil, "an accepted program fails to evaluate: "+kind+" "+param)
 	vfAssert(got == want, "an accepted program does not evaluate to the reference result: "+kind+" "+param)
